@@ -24,7 +24,9 @@ CONSTANTS EReps,      \* number-columns-repeated of an empty table:table-cell
           VReps,      \* ... of a cell with a value
           Vals,       \* value ids (indices into ValTable)
           XFlags,     \* {FALSE} or BOOLEAN: write the repeat attribute even when it is 1
-          MaxRuns, MaxRows, ERowReps, VRowReps, MaxArea
+          MaxRuns, MaxRows, ERowReps, VRowReps, MaxArea,
+          WsNames,    \* names of whitespace-only text nodes the writer may put between cell elements
+          PwNames     \* "" and/or names: whitespace in front of rows and around text:p (per table)
 
 ValTable == <<
   [vt |-> "float",      lex |-> "1.5",   canon |-> "1.5",   form |-> "attr", fm |-> ""],
@@ -46,9 +48,10 @@ ValTable == <<
 VARIABLES rows,     \* writer: completed physical rows
           cur,      \* writer: cells of the open row
           done,
-          rd,       \* reader: read_row's state [out, pend] for the open row
-          rcells    \* reader: `cells` segmented by `cols` (one entry per closed row)
-vars == <<rows, cur, done, rd, rcells>>
+          rd,       \* reader: read_row's state [out, pend, err] for the open row
+          rcells,   \* reader: `cells` segmented by `cols` (one entry per closed row)
+          pw        \* writer: whitespace style of the table (fixed in Init)
+vars == <<rows, cur, done, rd, rcells, pw>>
 
 Xs(n) == IF n = 1 THEN XFlags ELSE {FALSE}
 EmptyPC(k, n, x) == [k |-> k, n |-> n, x |-> x, vt |-> "", lex |-> "", canon |-> "",
@@ -56,36 +59,40 @@ EmptyPC(k, n, x) == [k |-> k, n |-> n, x |-> x, vt |-> "", lex |-> "", canon |->
 ValPC(v, n, x) == LET e == ValTable[v]
                   IN [k |-> "c", n |-> n, x |-> x, vt |-> e.vt, lex |-> e.lex,
                       canon |-> e.canon, form |-> e.form, fm |-> e.fm]
-RunSet == {EmptyPC("c", n, x) : n \in EReps, x \in XFlags}
+WsPC(name) == [k |-> "ws", n |-> 0, x |-> FALSE, vt |-> "", lex |-> name, canon |-> "",
+                form |-> "", fm |-> ""]
+RunSet == {WsPC(w) : w \in WsNames} \cup
+          {EmptyPC("c", n, x) : n \in EReps, x \in XFlags}
             \cup {EmptyPC("v", n, x) : n \in CovReps, x \in XFlags}
             \cup {ValPC(v, n, x) : v \in Vals, n \in VReps, x \in XFlags}
 Legal(pc) == pc.x \in Xs(pc.n)
 
 Blank(pcs) == \A i \in 1..Len(pcs) : pcs[i].vt = ""
 
-Init == rows = <<>> /\ cur = <<>> /\ done = FALSE /\ rd = RowInit /\ rcells = <<>>
+Init == rows = <<>> /\ cur = <<>> /\ done = FALSE /\ rd = RowInit /\ rcells = <<>> /\ pw \in PwNames
 
 WCell(pc) ==
   /\ ~done /\ Len(rows) < MaxRows /\ Len(cur) < MaxRuns /\ Legal(pc)
+  /\ (IF pc.k = "ws" /\ cur # <<>> THEN cur[Len(cur)].k # "ws" ELSE TRUE)   \* adjacent text is one node
   /\ cur' = Append(cur, pc)
-  /\ rd' = RowStep(rd, pc)
-  /\ UNCHANGED <<rows, done, rcells>>
+  /\ rd' = RowStep(rd, pc, pw)
+  /\ UNCHANGED <<rows, done, rcells, pw>>
 
 WRowEnd(rr, rx) ==
-  /\ ~done /\ Len(cur) >= 1
+  /\ ~done /\ \E i \in 1..Len(cur) : cur[i].k # "ws"
   /\ rr \in (IF Blank(cur) THEN ERowReps ELSE VRowReps)
   /\ rx \in Xs(rr)
   /\ rows' = Append(rows, [rr |-> rr, rx |-> rx, cells |-> cur])
   /\ cur' = <<>>
   /\ rcells' = Append(rcells, rd.out)      \* End(table:table-row): pending run dropped
   /\ rd' = RowInit
-  /\ UNCHANGED done
+  /\ UNCHANGED <<done, pw>>
 
 WDone ==
   /\ ~done /\ cur = <<>> /\ Len(rows) >= 1
   /\ AreaWithin(IdealV(rows), MaxArea)
   /\ done' = TRUE
-  /\ UNCHANGED <<rows, cur, rd, rcells>>
+  /\ UNCHANGED <<rows, cur, rd, rcells, pw>>
 
 Next == \/ \E pc \in RunSet : WCell(pc)
         \/ \E rr \in ERowReps \cup VRowReps, rx \in BOOLEAN : WRowEnd(rr, rx)
@@ -99,16 +106,18 @@ ColsAgree ==
     = FoldLeft(LAMBDA a, pc : a + pc.n, 0, cur)
 \* a pending run is never a value
 PendingOnlyEmpty == rd.pend > 0 => cur # <<>> /\ cur[Len(cur)].vt = ""
+\* after the repair no text node makes the reader fail
+NoError == WsIgnored => ~rd.err
 \* the incremental reader and the batch operators used by Trace_OdsTable agree
-Incremental == rcells = ReadTable(rows).cells
+Incremental == rcells = ReadTable(rows, pw).cells
 
 \* THE property: what the transcribed reader returns is what the statement promises
-Refines == done => /\ AsIsV(rows) = IdealV(rows)
-                   /\ AsIsF(rows) = IdealF(rows)
+Refines == done => /\ AsIsV(rows, pw) = IdealV(rows)
+                   /\ AsIsF(rows, pw) = IdealF(rows)
 
-Dump == done => PrintT(<<"REPLAY", ToJson([tokens |-> rows,
+Dump == done => PrintT(<<"REPLAY", ToJson([tokens |-> rows, pw |-> pw,
                                            ideal |-> [v |-> IdealV(rows), f |-> IdealF(rows)],
                                            rd |-> [rows |-> ValRows(rcells),
-                                                   reps |-> ReadTable(rows).reps],
+                                                   reps |-> ReadTable(rows, pw).reps],
                                            dev |-> <<>>])>>)
 =============================================================================
